@@ -6,7 +6,9 @@
 From Coq Require Import List ZArith NArith String Bool.
 From SCC Require Import Base.Sexp Lang.FunSyn Lang.CoreSyn Lang.AxSyn Lang.AxSize Lang.FsSize Lang.CoreSize
      Model.Fun2Core Model.Focus Model.Shrink Model.SizeDefs Model.Linearize Model.Backend
-     Model.Uniquify Proof.Fun2CoreProof Proof.SizeLin Proof.SizeCodegen Proof.SizeShrink Proof.SizeFocus.
+     Model.Uniquify Proof.Fun2CoreProof Proof.SizeLin Proof.SizeCodegen Proof.SizeShrink Proof.SizeFocus Proof.SizeGen Proof.SizeUniquify Model.SizeFun Proof.SizeFun2CoreFv Proof.SizeFun2Core Proof.SizeFun2CoreProg
+     Model.ParMoves Model.LinCheck Model.X86 Model.SizeWf Proof.SizeParMoves Proof.SizeExchange Proof.SizeCodegenWf Proof.SizeX86 Proof.SizePipeline Proof.Fun2CoreExamples Proof.SizeFun2CoreRefute Proof.SizeA64 Proof.SizeRV Proof.SizeLinWidth.
+From SCC Require Model.A64 Model.RV.
 Import ListNotations.
 Open Scope N_scope.
 
@@ -184,3 +186,227 @@ Theorem C19_focus_size_partial : forall p p1 q,
   uniquify_prog p = Backend.Ok p1 -> focus_prog p = Backend.Ok q -> fs_wprog q <= 4 * c_wprog p1.
 Proof. exact focus_prog_size_partial_lemma. Qed.
 Print Assumptions C19_focus_size_partial.
+
+(* ---------- round 2: the renaming pass and the unconditional focusing bound ---------- *)
+(* `uniquify` (first half of Prog::focus) replaces variables by variables and renames binders: it
+   preserves the weighted size and the node count exactly (Proof/SizeUniquify.v) *)
+Theorem C19_uniquify_size : forall p p1, uniquify_prog p = Backend.Ok p1 ->
+  c_wprog p1 = c_wprog p /\ size_cprog p1 = size_cprog p.
+Proof. exact uniquify_size_lemma. Qed.
+Print Assumptions C19_uniquify_size.
+
+(* the stated focus_size_statement, with c2 = 4: Prog::focus at most quadruples the weighted size *)
+Theorem C19_focus_size : focus_size_statement 4.
+Proof. exact focus_prog_size_lemma. Qed.
+Print Assumptions C19_focus_size.
+
+(* ---------- round 2: Fun -> Core, whole programs, every term form ---------- *)
+(* the free-variable inclusion behind it (no fragment, no scoping hypothesis): the free bindings of the
+   translation of t against cont are typed variable occurrences of t (Model/SizeFun.v tocc) or free in
+   cont; compiler-generated names never escape.  Hence a shared continuation has at most
+   (distinct typed occurrences of the definition) + 2 parameters. *)
+Theorem C19_fun2core_free_vars : forall codata cur t cont st s st',
+  wc codata cur false t cont st = Fun2Core.Ok (s, st') -> cont_cns cont ->
+  forall b, In b (Fun2Core.tfv_stmt s []) -> In b (tocc t) \/ In b (Fun2Core.tfv_term cont []).
+Proof. exact occ_wc. Qed.
+Print Assumptions C19_fun2core_free_vars.
+
+(* one definition body: Q = 6 + (2 + k) * (|U| + 2) per source node, U any list containing the typed
+   occurrences; k = 0 node counts, k = 1 weighted sizes; `lz` = everything lifted so far *)
+Theorem C19_fun2core_wc_size : forall codata cur k U t cont st s st',
+  wc codata cur false t cont st = Fun2Core.Ok (s, st') -> cok U cont -> incl (tocc t) U ->
+  cz_stmt k s + lz k st' + 2 <= lz k st + fz k t * (6 + 2 * (len U + 2) + k * (len U + 2)) + cz_term k cont.
+Proof. exact sz_wc. Qed.
+Print Assumptions C19_fun2core_wc_size.
+
+(* whole programs, all definitions incl. the lifted share_* ones.  fun_occ p = the largest number of
+   DISTINCT typed variable occurrences (name, chirality, type) in one definition: for a type-checked
+   program at most the parameters and binders of the definition (C19_fun2core_size_scoped); always <= size.
+   Node counts: linear in size x (5 + occurrences);  weighted sizes (f_wprog counts the binders of
+   clauses and definitions, c_wprog the clause/definition contexts): the form the pipeline needs. *)
+Theorem C19_fun2core_size : forall p c, compile_prog p = Fun2Core.Ok c ->
+  size_cprog c <= size_fcprog p * (10 + 2 * fun_occ p) /\
+  c_wprog c <= f_wprog p * (12 + 3 * fun_occ p) /\
+  fun_occ p <= size_fcprog p.
+Proof.
+  intros p c H. split; [exact (fun2core_size_nodes p c H)|]. split; [exact (fun2core_size_weighted p c H)|].
+  exact (fun_occ_le_size p).
+Qed.
+Print Assumptions C19_fun2core_size.
+
+(* in terms of binders, for scoped programs: occ_scoped p (Model/SizeFun.v, a boolean containment check) = every
+   typed occurrence of a definition is one of its parameters / let variables / clause parameters / labels at the
+   declared type; fun_tb p = the largest number of those in a definition.  This is the stated form
+   size x (1 + variables), with the scoping hypothesis it needs. *)
+Theorem C19_fun2core_size_scoped : forall p c, compile_prog p = Fun2Core.Ok c -> occ_scoped p = true ->
+  size_cprog c <= size_fcprog p * (10 + 2 * fun_tb p) /\ c_wprog c <= f_wprog p * (12 + 3 * fun_tb p).
+Proof. exact fun2core_size_scoped. Qed.
+Print Assumptions C19_fun2core_size_scoped.
+
+(* the form STATED in round 1 (fun2core_size_statement above, with the parameters + binders of a
+   definition as second factor) quantifies over all values of type fcprog, ill-scoped ones included, and
+   is false of the model for the calibrated constant 12: Proof/SizeFun2CoreRefute.v, a definition without
+   binders mentioning 40 variables bound nowhere under 40 nested `case (if ..)`: 322 source nodes, 3966 Core
+   nodes > 12 * 322 * (1 + 0).  The type checker rejects that program; the proved bound C19_fun2core_size
+   counts the distinct typed occurrences (40 here) instead of the binders. *)
+Theorem C19_fun2core_size_statement_unscoped_refuted : ~ fun2core_size_statement 12.
+Proof. exact fun2core_size_statement_12_refuted. Qed.
+Print Assumptions C19_fun2core_size_statement_unscoped_refuted.
+
+(* in the size alone: quadratic, for every program the translation accepts *)
+Theorem C19_fun2core_size_quadratic : forall p c, compile_prog p = Fun2Core.Ok c ->
+  size_cprog c <= size_fcprog p * (10 + 2 * size_fcprog p).
+Proof. exact fun2core_size_quadratic. Qed.
+Print Assumptions C19_fun2core_size_quadratic.
+
+(* ---------- round 2: the cost model, discharged for x86-64 ---------- *)
+(* [cost_model B K] above asks the parallel-move bound of EVERY move table tm; that is more than any back
+   end can give: with duplicate target ids the spanning "tree" of the algorithm unfolds a DAG.  The
+   provable form restricts the last clause to the move table of a Substitute whose old and new contexts
+   have pairwise distinct ids ([cost_model_wf], Proof/SizeCodegenWf.v; the other clauses are the
+   same), and the generic theorem asks that of every Substitute met ([sub_wf], Model/SizeWf.v). *)
+Theorem C19_cost_model_weaker : forall {Code Temp : Type} (B : backend Code Temp) (K : N),
+  cost_model B K -> cost_model_wf B K.
+Proof.
+  intros Code Temp B K (H1 & H2 & H3 & H4 & H5 & H6 & H7 & H8 & H9 & H10 & H11 & H12 & H13 & H14 & H15 & H16 & H17 & H18).
+  repeat split; auto. intros re c code _ _ H. apply H18 in H. rewrite SizeLin.len_map in H. exact H.
+Qed.
+Print Assumptions C19_cost_model_weaker.
+
+Theorem C19_codegen_size_wf : forall {Code Temp : Type} (B : backend Code Temp) (K : N), cost_model_wf B K ->
+  forall types ds lc code lc', sub_wf_defs ds = true ->
+  translate B types ds lc = Backend.Ok (code, lc') -> len code <= K * cg_bound_defs ds.
+Proof. intros Code Temp B K H. apply translate_size_wf_cm. exact H. Qed.
+Print Assumptions C19_codegen_size_wf.
+
+(* the precondition holds of everything the linear discipline accepts, in particular of linearize's output
+   for checked programs (C05_linearize_exact: prog_ok p -> lin_check_prog (linearize p)) *)
+Theorem C19_lin_check_sub_wf : forall p, lin_check_prog p = true -> sub_wf_prog p = true.
+Proof. exact lin_check_prog_sub_wf. Qed.
+Print Assumptions C19_lin_check_sub_wf.
+
+(* the counting lemma of the parallel-move algorithm (any temporaries): in-degree <= 1 and duplicate-free
+   target sets give at most 2 pseudo-instructions per edge and one per key *)
+Theorem C19_parallel_moves_count : forall (T : Type) (eqb : T -> T -> bool),
+  (forall a b, reflect (a = b) (eqb a b)) ->
+  forall fuel (A : amap T) rs, indeg1 T eqb A -> nodup_targets T eqb A -> spanning_forest T eqb fuel A = Some rs ->
+  (List.length (flat_map (root_moves T) rs) <= 2 * List.length (all_targets T A) + List.length A)%nat.
+Proof. exact parallel_moves_len. Qed.
+Print Assumptions C19_parallel_moves_count.
+
+(* ... and in-degree <= 1 cannot be dropped: a chain of d diamonds (two sources for one target) makes the first
+   root's spanning tree unfold the DAG - 1020 pseudo-instructions for 32 edges and 24 keys, 16380 for 48 / 36.
+   This is why the parallel-move clause of the round-1 [cost_model] (every move table) is too strong. *)
+Example C19_parallel_moves_indeg1_needed :
+  diamonds_count 8 = Some (1020, 32, 24) /\ diamonds_count 12 = Some (16380, 48, 36).
+Proof. split; vm_compute; reflexivity. Qed.
+Print Assumptions C19_parallel_moves_indeg1_needed.
+
+(* x86-64: K = 40 + 13 * FIELDS_PER_BLOCK (= 79 with 3 fields per block) *)
+Theorem C19_x86_cost_model : cost_model_wf x86_backend x86_K.
+Proof. apply x86_cost_model_wf. intros c. vm_compute. discriminate. Qed.
+Print Assumptions C19_x86_cost_model.
+
+Theorem C19_x86_codegen_size : forall types ds lc code lc',
+  sub_wf_defs ds = true ->
+  translate x86_backend types ds lc = Backend.Ok (code, lc') -> len code <= x86_K * cg_bound_defs ds.
+Proof. intros types ds lc code lc'. apply x86_translate_size. intros c. vm_compute. discriminate. Qed.
+Print Assumptions C19_x86_codegen_size.
+
+(* the whole routine: preamble, setup, argument moves, code, cleanup *)
+Theorem C19_x86_compile_size : forall p lc r n lc',
+  sub_wf_prog p = true -> x86_compile p lc = Backend.Ok (r, n, lc') ->
+  len r <= 30 + x86_K * cg_bound_defs (pdefs p).
+Proof. exact x86_compile_size. Qed.
+Print Assumptions C19_x86_compile_size.
+
+(* AArch64: K = 40 + 15 * FIELDS_PER_BLOCK (= 85); RISC-V: K = 20 + 13 * FIELDS_PER_BLOCK (= 59; the model emits
+   nothing for print and rv_compile rejects programs that print, as the real back end panics there) *)
+Theorem C19_a64_cost_model : cost_model_wf A64.a64_backend a64_K.
+Proof. apply a64_cost_model_wf. intros c. vm_compute. discriminate. Qed.
+Print Assumptions C19_a64_cost_model.
+
+Theorem C19_a64_compile_size : forall p lc r n lc',
+  sub_wf_prog p = true -> A64.a64_compile p lc = Backend.Ok (r, n, lc') ->
+  len r <= 28 + a64_K * cg_bound_defs (pdefs p).
+Proof. exact a64_compile_size. Qed.
+Print Assumptions C19_a64_compile_size.
+
+Theorem C19_rv_cost_model : cost_model_wf RV.rv_backend rv_K.
+Proof. exact rv_cost_model_wf. Qed.
+Print Assumptions C19_rv_cost_model.
+
+Theorem C19_rv_compile_size : forall p lc r n lc',
+  sub_wf_prog p = true -> RV.rv_compile p lc = Backend.Ok (r, n, lc') ->
+  len r <= rv_K * cg_bound_defs (pdefs p).
+Proof. exact rv_compile_size. Qed.
+Print Assumptions C19_rv_compile_size.
+
+(* ---------- round 2: the composition ---------- *)
+(* AxCut after shrinking and after linearization, from the source alone (no hypothesis but that the stages
+   succeed).  W = f_wprog p (weighted source size), V = fun_occ p, X = fun_X p, A = fun_A p (declarations);
+     pipeline_shrunk_bound p = b_shrunk (b_focused W V) X A,   pipeline_ax_bound p = b_linearized (that),
+     b_focused W V = 4 W (12 + 3 V),  b_shrunk w X A = w ((2 + X (2 + A)) + 2 (1 + X) w),
+     b_linearized S = S (5 + 3 S)      (Model/SizeFun.v);
+   closed forms with w = pl_w p = 12 W (4 + V), d = pl_d p = 4 + X (4 + A): d w^2 and 8 (d w^2)^2. *)
+Theorem C19_pipeline_ax_size : forall p c q s,
+  compile_prog p = Fun2Core.Ok c -> focus_prog c = Backend.Ok q -> shrink_prog q = SOk s ->
+  ax_size_prog s <= pipeline_shrunk_bound p /\ ax_size_prog (linearize s) <= pipeline_ax_bound p /\
+  pipeline_shrunk_bound p <= pl_d p * pl_w p ^ 2 /\ pipeline_ax_bound p <= 8 * (pl_d p * pl_w p ^ 2) ^ 2.
+Proof.
+  intros p c q s H1 H2 H3. split; [exact (pipeline_shrunk_size p c q s H1 H2 H3)|].
+  split; [exact (pipeline_ax_size p c q s H1 H2 H3)|]. split; [exact (pipeline_shrunk_closed p) | exact (pipeline_ax_closed p)].
+Qed.
+Print Assumptions C19_pipeline_ax_size.
+
+(* the largest context the code generator meets on a linearized statement, in terms of the statement BEFORE
+   linearization (factor 2: a Create rearranges the context into rest ++ captured environment) *)
+Theorem C19_lin_max_context : forall fuel s c m,
+  ax_maxw (fst (lin fuel s c m)) (len c) <= 2 * len c + 2 * ax_size s.
+Proof. exact lin_maxw. Qed.
+Print Assumptions C19_lin_max_context.
+
+Theorem C19_cg_bound_linearize : forall p,
+  cg_bound_defs (pdefs (linearize p)) <= ax_size_prog (linearize p) * (5 + 4 * ax_size_prog p).
+Proof. exact cg_bound_linearize. Qed.
+Print Assumptions C19_cg_bound_linearize.
+
+(* instructions of the x86-64 routine (preamble, setup, code, cleanup):
+     <= 30 + x86_K * L * (5 + 4 S),  S = pipeline_shrunk_bound p, L = pipeline_ax_bound p,
+     <= 30 + 72 * x86_K * (d w^2)^3
+   i.e. degree 6 in W (4 + V) and degree 3 in the declaration coefficient: shrinking and linearization each
+   square (their proved bounds are size x (1 + width) and width <= size is the only width estimate that needs no
+   scoping invariant), code generation multiplies by the size before linearization.  Guard: the Substitutes
+   of the linearized program have distinct ids (sub_wf; implied by lin_check_prog, which C05_linearize_exact
+   gives for prog_ok inputs). *)
+Theorem C19_pipeline_size : forall p c q s lc r n lc',
+  compile_prog p = Fun2Core.Ok c -> focus_prog c = Backend.Ok q -> shrink_prog q = SOk s ->
+  sub_wf_prog (linearize s) = true ->
+  x86_compile (linearize s) lc = Backend.Ok (r, n, lc') ->
+  len r <= 30 + x86_K * (pipeline_ax_bound p * (5 + 4 * pipeline_shrunk_bound p)) /\
+  pipeline_ax_bound p * (5 + 4 * pipeline_shrunk_bound p) <= 72 * (pl_d p * pl_w p ^ 2) ^ 3.
+Proof.
+  intros p c q s lc r n lc' H1 H2 H3 HW H5. split; [exact (pipeline_x86_size p c q s lc r n lc' H1 H2 H3 HW H5)|].
+  exact (pipeline_cg_closed p).
+Qed.
+Print Assumptions C19_pipeline_size.
+
+(* the guard discharged through C05 (linearize_exact) when the shrunk program passes the boolean checker prog_ok
+   (typed, binders unique); modelrun evaluates sub_wf on the real linearized program of every case *)
+Theorem C19_pipeline_size_prog_ok : forall p c q s lc r n lc',
+  compile_prog p = Fun2Core.Ok c -> focus_prog c = Backend.Ok q -> shrink_prog q = SOk s ->
+  prog_ok s = true ->
+  x86_compile (linearize s) lc = Backend.Ok (r, n, lc') ->
+  len r <= 30 + x86_K * (pipeline_ax_bound p * (5 + 4 * pipeline_shrunk_bound p)).
+Proof. exact pipeline_x86_size_prog_ok. Qed.
+Print Assumptions C19_pipeline_size_prog_ok.
+
+(* the hypotheses are satisfiable and the stage bounds are of a sensible size on a small program with two
+   shared continuations (Proof/Fun2CoreExamples.v ex_shared: 33 nodes): 259 instructions; the per-stage
+   bound of the code generator gives 17410, the end-to-end composition is astronomically loose *)
+Example C19_pipeline_example :
+  pipeline_run ex_shared =
+    Some (33, 36, 5, 1, 1, (73, 84, 85, 63, 93), (660, 972), (220, 259, true, true, true),
+          (10975529531126448, 209780290354108469245288878, 17410)).
+Proof. vm_compute. reflexivity. Qed.
+Print Assumptions C19_pipeline_example.
